@@ -567,6 +567,85 @@ fn depth_sweep() -> Sweep {
     )
 }
 
+// The occurs check in every child position of every term former: under a context of one boolean and one
+// integer parameter, the hole against a term in weak-head normal form that contains it — in the
+// condition, the then-branch and the else-branch of a conditional stuck on the parameter (directly and
+// one level further in), in either operand of an operator stuck on the parameter, in the argument and
+// the function of a neutral application, in the domain and the codomain of a function type, in the
+// annotation and the body of a function, under a negation. Both argument orders. A success must not
+// leave the cell solved by a term that contains it.
+fn occurs_positions_sweep() -> Sweep {
+    use crate::model::mterm::Op;
+    let b = || rc(M::Var(Rc::from("b"), 1));
+    let n = || rc(M::Var(Rc::from("n"), 0));
+    let h = |s: usize| rc(M::Hole(0, s));
+    let x: Rc<str> = Rc::from("x");
+    let arrow = |a: R, c: R| rc(M::Pi(x.clone(), false, a, c));
+    let int = || rc(M::Int);
+    let mut terms: Vec<M> = vec![];
+    for inner in [h(0), arrow(h(0), int()), arrow(int(), h(1))] {
+        terms.push(M::If(b(), int(), inner.clone()));
+        terms.push(M::If(b(), inner.clone(), int()));
+        terms.push(M::If(b(), int(), rc(M::If(b(), int(), inner.clone()))));
+        terms.push(M::App(n(), inner.clone()));
+        terms.push(M::App(rc(M::App(n(), inner.clone())), int()));
+        terms.push(M::Neg(inner.clone()));
+        for op in [Op::Add, Op::Mul, Op::Lt, Op::Eq, Op::Ge] {
+            terms.push(M::Bin(op, n(), inner.clone()));
+            terms.push(M::Bin(op, inner.clone(), n()));
+        }
+    }
+    terms.push(M::If(h(0), int(), int()));
+    terms.push(M::Pi(x.clone(), false, h(0), int()));
+    terms.push(M::Pi(x.clone(), false, int(), h(1)));
+    terms.push(M::Pi(x.clone(), true, int(), arrow(h(1), h(2))));
+    terms.push(M::Lam(x.clone(), false, int(), h(1)));
+    terms.push(M::Lam(x.clone(), false, h(0), rc(M::Var(x.clone(), 0))));
+    terms.push(M::App(h(0), int()));
+    let terms = Rc::new(terms);
+    let t2 = terms.clone();
+    Sweep::new(
+        "the occurs check in every child position of every term former (the hole against a weak-head normal term that contains it)",
+        terms.len() as u64 * 2,
+        move |idx| {
+            let t = &terms[idx as usize / 2];
+            let swap = idx % 2 == 1;
+            count!("unify_calls");
+            count!("evaluations");
+            count!("occurs_position_problems");
+            let mut cells: Cells = HashMap::new();
+            let (rh, rt) = (to_real(&M::Hole(0, 0), &mut cells), to_real(t, &mut cells));
+            let mut dc: Vec<Option<(Rc<crate::term::Term<'static>>, usize)>> = vec![None, None];
+            let r = if swap { bind::guard(|| crate::unifier::unify(&rt, &rh, &mut dc)) } else { bind::guard(|| crate::unifier::unify(&rh, &rt, &mut dc)) };
+            let d = || format!("unify(?0^0, {}){} under the context [b : bool; n : int]", t.show(), if swap { " (arguments swapped)" } else { "" });
+            if dc.len() != 2 {
+                violation("context-not-restored", &d(), "2 entries", &format!("{}", dc.len()));
+                return;
+            }
+            match r {
+                Err(m) => violation("unify-panic", &d(), "a verdict", &m),
+                Ok(false) => {
+                    count!("unify_false");
+                    count!("occurs_position_refused");
+                    count!("nontrivial");
+                }
+                Ok(true) => {
+                    count!("unify_true");
+                    let mut mir = Mirror::new();
+                    mir.mirror(&rh);
+                    mir.mirror(&rt);
+                    if mir.cyclic {
+                        violation("cyclic-solution", &d(), "false: the term contains the hole", "true, and the hole is solved by a term that contains it");
+                    } else {
+                        count!("nontrivial");
+                    }
+                }
+            }
+        },
+        move |idx| t2[idx as usize / 2].show(),
+    )
+}
+
 // Terms whose operators are stuck on variables (every binary operator on x and y, on a variable and a
 // literal, on a variable and an operand that still reduces; the negation; the same as the condition of a
 // conditional), all ordered pairs: hole-free (a success must be consistent; a term against itself and
@@ -735,7 +814,7 @@ impl Prop for C12 {
         "C12"
     }
     fn sweeps(&self, tier: Tier) -> Vec<Sweep> {
-        vec![punch_sweep(tier), pairs_sweep(tier), crate::props::c18::unify_under_context_sweep(tier), depth_sweep(), context_occurs_sweep(), stuck_pairs_sweep()]
+        vec![punch_sweep(tier), pairs_sweep(tier), crate::props::c18::unify_under_context_sweep(tier), depth_sweep(), context_occurs_sweep(), stuck_pairs_sweep(), occurs_positions_sweep()]
     }
     fn evidence(&self, tier: Tier) -> EvidenceSpec {
         EvidenceSpec {
